@@ -395,7 +395,7 @@ def stale_loop_uses(func_node):
     return out
 
 
-def reaching_assign(node, name):
+def reaching_assign(node, name, unpack=False):
     """the assignment to `name` that reaches `node` in straight-line code (nearest earlier sibling assignment in an enclosing block);
     None when there is none or the nearest candidate is conditional"""
     prev = node
@@ -406,6 +406,9 @@ def reaching_assign(node, name):
                 i = [k for k, s_ in enumerate(lst_) if prev is s_][0]
                 for s_ in reversed(lst_[:i]):
                     if isinstance(s_, ast.Assign) and any(isinstance(t, ast.Name) and t.id == name for t in s_.targets):
+                        return s_
+                    if unpack and isinstance(s_, ast.Assign) and len(s_.targets) == 1 and isinstance(s_.targets[0], ast.Tuple) \
+                            and any(isinstance(t, ast.Name) and t.id == name for t in s_.targets[0].elts):
                         return s_
                     if any(isinstance(x, ast.Name) and x.id == name and isinstance(x.ctx, ast.Store) for x in ast.walk(s_)):
                         return None
